@@ -503,7 +503,7 @@ fn classify_isolated(spec: &Value, result: &str, known: &[String]) -> Option<Str
 }
 
 fn load_exact_inputs() -> Vec<String> {
-    let path = std::path::PathBuf::from(crate::common::VERIF_DIR).join("known_findings.json");
+    let path = crate::common::verif_dir().join("known_findings.json");
     let Ok(text) = std::fs::read_to_string(path) else { return vec![] };
     let Ok(v) = serde_json::from_str::<Value>(&text) else { return vec![] };
     let mut out = vec![];
